@@ -50,6 +50,11 @@ CHECKS = {
    text="Generated-input search: 16 templates (backtracking, lookahead, repetition fast/counted loops, fold_with callbacks, the three recovery strategies, with_state inside repetition / choice / nested) x every string over {a,b,c} up to length 6 (quick) / 8 (thorough) x 3 input kinds, plus 300k / 4M random C01/C02/C08-class grammars with every node wrapped in a state-reading map_with (select! and fold_with callbacks too); every observation must equal fold(S0, tokens before the current position), the caller's state after a successful parse_with_state / check_with_state must equal fold(S0, whole input), and with_state sub-parsers must start from a fresh copy on every invocation and leave the outer state untouched. Exploration within these bounds.",
    note="Trusted: the node's own span end as 'current position' for the oracle-free part (C07 ties it to the consumed extent); the reference's scope bookkeeping for with_state. Pratt fold callbacks reading state are exercised in C09's module.",
    design="DESIGN.md section 4, C18"),
+ "C15": dict(
+   technique="property-based differential testing against a reference semantics that threads an explicit context value (nearest enclosing provider on the current path), plus a reference-free metamorphic relation (consumers under constant providers replaced by their statically configured equivalents); exhaustive grammar families x short strings + proptest-driven random tier",
+   text="Generated-input search: 67 family members (length-prefixed with exactly / at_most / try_configure and 4 consumers, nested two levels, lists of length-prefixed lists, providers in abandoned alternatives; delimiter-echo; indentation-like with_ctx / map_ctx nesting; context under lookahead and recursion) x every string over {0,1,2,a} up to length 6 (quick) / 8 (thorough), plus 300k / 4M random C01/C02-class grammars with with_ctx / ignore_with_ctx / then_with_ctx / map_ctx providers and map_with(ctx) / just.configure / repeated.configure / try_configure consumers at random nodes (incl. repetitions, choices, lookahead, recursion); acceptance, output (which embeds every observed context), check-mode acceptance and the final error must equal the reference's, and the statically configured equivalent must agree wherever the provider is a constant. Exploration within these bounds.",
+   note="Trusted: the reference's context threading; ctx_num (test scaffolding shared by builder and reference). at_most-from-context keeps the static lower bound at 0 (the empty-interval corner is C02's known finding KF-b).",
+   design="DESIGN.md section 4, C15"),
 }
 
 NOT_YET = {}
